@@ -207,6 +207,11 @@ func (d *Decoder) decodeValue(value reflect.Value) {
 			d.err = errors.Wrap(d.err, "decode interface")
 			return
 		}
+
+		if val == nil || !reflect.TypeOf(val).ConvertibleTo(value.Type()) {
+			d.err = fmt.Errorf("decode interface: %T is not a %v", val, value.Type())
+			return
+		}
 	default:
 		panic("неизвестная штука: " + value.Type().String())
 	}
